@@ -46,6 +46,7 @@ AVOIDABLE = {
     "F3": "OPTIONAL columns are always written with definition levels",
     "F5": "OPTIONAL columns get one page per chunk (one batch per column and row group, page cut only at its end); read with one call",
     "EMPTY_RG": "no write_batch call with zero rows and no row group without rows",
+    "FA2": "BYTE_ARRAY columns get one page per chunk (a read_batch call crossing a page boundary hands out dangling pointers)",
     "BOOLNULL": "no write_batch call on a BOOLEAN column whose rows are all null (FA1: it returns OUT_OF_MEMORY)",
 }
 
@@ -376,7 +377,7 @@ def _run_chunk(drv, scripts, base, timeout, case_timeout, env):
             cur.fault = {"exit": int(kv.get("exit", -1)), "signal": int(kv.get("signal", 0)),
                          "summary": kv.get("summary", "-")}
             cur = None
-        elif cur is not None:
+        elif cur is not None and line != "":
             cur.lines.append(line)
     # per-case stderr
     marks = err.split("---- stderr of case ")
@@ -450,10 +451,16 @@ def _values(tok, ptype, tlen, n):
     if ptype == "BYTE_ARRAY":
         out = []
         for it in tok.split(","):
-            out.append(bytes.fromhex(it[1:]) if it.startswith("x") else Bad(it[1:]))
+            try:
+                out.append(bytes.fromhex(it[1:]) if it.startswith("x") else Bad(it[1:]))
+            except ValueError:
+                out.append(Bad("garbled"))
         return out
     w = tlen if ptype == "FIXED_LEN_BYTE_ARRAY" else WIDTH.get(ptype, 0)
-    b = bytes.fromhex(tok)
+    try:
+        b = bytes.fromhex(tok)
+    except ValueError:
+        return [Bad("garbled")]
     if w <= 0:
         return []
     return [b[i * w:(i + 1) * w] for i in range(len(b) // w)]
@@ -1111,7 +1118,8 @@ def build_history(rng, table, options, cuts, parts_per_group, avoid=frozenset(),
             col = table.schema.columns[c]
             rows = table.columns[c][lo:hi]
             sizes = list(parts_per_group[g][c])
-            if col.rep == "OPTIONAL" and "F5" in avoid:
+            single = (col.rep == "OPTIONAL" and "F5" in avoid) or (col.ptype == "BYTE_ARRAY" and "FA2" in avoid)
+            if single:
                 sizes = [hi - lo] if hi > lo else []
             if "F2" in avoid and not one_per_page:
                 sizes = [hi - lo] if hi > lo else []
@@ -1121,7 +1129,7 @@ def build_history(rng, table, options, cuts, parts_per_group, avoid=frozenset(),
                 p += s
             if p < len(rows):
                 batches.append(rows[p:])
-            if col.rep == "OPTIONAL" and "F1" in avoid and ("F5" not in avoid) and ("F2" not in avoid or one_per_page):
+            if col.rep == "OPTIONAL" and "F1" in avoid and not single and ("F2" not in avoid or one_per_page):
                 batches = [q for b in batches for q in _split_f1(b)]
             if extras and rng is not None and "EMPTY_RG" not in avoid and rng.random() < 0.08:
                 batches.insert(rng.randrange(len(batches) + 1), [])
